@@ -191,37 +191,40 @@ DevMap(prog) ==
   {[d |-> S, o |-> cand[S]] : S \in {S \in DOMAIN cand : cand[S] # ideal}}
 
 ---------------------------------------------------------------------------
-(* Laws of the ideal module system (a second formulation of the property, *)
-(* checked by TLC on every generated program).                              *)
+(* Laws of the module system (a second formulation of the property),       *)
+(* checked by TLC on every generated program: with Dev = {} they hold; with *)
+(* a deviation switched on TLC finds them violated (MC_Modules_neg*.cfg),   *)
+(* which shows that the deviation is a violation of the property and not a  *)
+(* modelling artefact.                                                       *)
 
-ValueTokens(prog) == LET o == Observe(prog, {}) IN {o.v[i] : i \in DOMAIN o.v}
+ValueTokens(prog, Dev) == LET o == Observe(prog, Dev) IN {o.v[i] : i \in DOMAIN o.v}
 MemberTokens == {x \o s : x \in {"a", "b"}, s \in {"d", "p", "f", "m"}} \cup {"mo", "pi"}
 ConfigTokens == {"c1", "c2", "c3"}
 
 (* members are reachable only through a namespace: a bare access without   *)
 (* any `as *` use never yields a member of some module                      *)
-LawNamespaceOnly(prog) ==
+LawNamespaceOnly(prog, Dev) ==
   (prog.acc.k = "get" /\ prog.acc.ns = "" /\ ~\E i \in DOMAIN prog.r : prog.r[i].k = "use" /\ prog.r[i].as = "star")
-    => ValueTokens(prog) \cap (MemberTokens \cup ConfigTokens) = {}
+    => ValueTokens(prog, Dev) \cap (MemberTokens \cup ConfigTokens) = {}
 
 (* `with` sets only the !default variable: a configured value shows only    *)
 (* where $d shows, and any configuration naming another variable is an      *)
 (* error                                                                    *)
-LawConfigOnlyDefault(prog) ==
-  LET o == Observe(prog, {})
+LawConfigOnlyDefault(prog, Dev) ==
+  LET o == Observe(prog, Dev)
       AL == AllLoads(prog) IN
   o.k = "val" =>
     /\ \A l \in AL : StOf(prog, l).t \in LibFiles => CfgNames(StOf(prog, l).cfg) \subseteq {"d"}
     /\ \A l \in AL : StOf(prog, l).t \in Builtins => StOf(prog, l).cfg = <<>>
-    /\ (ValueTokens(prog) \cap ConfigTokens # {} => (prog.acc.kind \in {"var", "fn"} /\ prog.acc.n \in {"d", "f"}))
+    /\ (ValueTokens(prog, Dev) \cap ConfigTokens # {} => (prog.acc.kind \in {"var", "fn"} /\ prog.acc.n \in {"d", "f"}))
 
 (* show S and hide S are complementary, for every member that reaches the   *)
 (* filter: flipping show <-> hide flips visibility                           *)
 Flip(st) == IF st.k = "fwd" /\ st.vis # "all" THEN [st EXCEPT !.vis = IF st.vis = "show" THEN "hide" ELSE "show"] ELSE st
-LawShowHideComplement(prog) ==
+LawShowHideComplement(prog, Dev) ==
   LET p2 == [prog EXCEPT !.m = [i \in DOMAIN prog.m |-> Flip(prog.m[i])]]
-      o1 == Observe(prog, {})
-      o2 == Observe(p2, {}) IN
+      o1 == Observe(prog, Dev)
+      o2 == Observe(p2, Dev) IN
   (/\ Len(prog.m) = 1 /\ prog.m[1].k = "fwd" /\ prog.m[1].vis # "all" /\ prog.m[1].t \in LibFiles
    /\ CfgNames(prog.m[1].cfg) \subseteq {"d"} /\ ~CfgDup(prog.m[1].cfg)
    /\ prog.acc.k = "get" /\ prog.acc.pre = prog.m[1].pre /\ prog.acc.n \in {"d", "p", "f", "m"}
@@ -232,8 +235,24 @@ LawShowHideComplement(prog) ==
    /\ \A i \in DOMAIN prog.r : prog.r[i].cfg = <<>> /\ (prog.r[i].t = "m" \/ prog.r[i].k = "fwd" \/ prog.r[i].as # "star"))
   => ((o1.k = "val" /\ o1.v # <<CssCall(prog.acc.pre, prog.acc.n)>>) # (o2.k = "val" /\ o2.v # <<CssCall(prog.acc.pre, prog.acc.n)>>))
 
+(* show/hide filter exactly the listed members (names as written after the  *)
+(* prefix is applied; `$` entries name variables, the others functions and  *)
+(* mixins): stated on whole programs `@use "m"` + one @forward of a library *)
+LawFilterExact(prog, Dev) ==
+  LET st == prog.m[1]
+      a  == prog.acc
+      listed == \E i \in DOMAIN st.list : st.list[i].n = a.n /\ st.list[i].pre = a.pre
+                                           /\ st.list[i].c = (IF a.kind = "var" THEN "var" ELSE "fun")
+      o == Observe(prog, Dev) IN
+  (/\ Len(prog.m) = 1 /\ st.k = "fwd" /\ st.t \in LibFiles /\ st.cfg = <<>>
+   /\ Len(prog.r) = 1 /\ prog.r[1].k = "use" /\ prog.r[1].t = "m" /\ prog.r[1].as = "def" /\ prog.r[1].cfg = <<>>
+   /\ a.k = "get" /\ a.ns = "m" /\ a.pre = st.pre
+   /\ ((a.kind = "var" /\ a.n \in {"d", "p"}) \/ (a.kind = "fn" /\ a.n = "f") \/ (a.kind = "mix" /\ a.n = "m"))
+   /\ o.k # "undef")
+  => ((o.k = "val") <=> (st.vis = "all" \/ (st.vis = "show" /\ listed) \/ (st.vis = "hide" /\ ~listed)))
+
 (* built-in modules can be neither configured nor assigned to *)
-LawBuiltin(prog) ==
+LawBuiltin(prog, Dev) ==
   ((\E l \in AllLoads(prog) : StOf(prog, l).t \in Builtins /\ StOf(prog, l).cfg # <<>>) \/ prog.acc.k = "set")
-    => Observe(prog, {}).k \in {"err", "undef"}
+    => Observe(prog, Dev).k \in {"err", "undef"}
 =============================================================================
